@@ -237,11 +237,13 @@ MAX_SAMPLES = 6
 def jsonable(x, depth=0):
     """Best-effort faithful JSON form of a case/witness."""
     import numpy as np
-    if depth > 8:
+    if depth > 60:
         return repr(x)
     if x is None or isinstance(x, (bool, int, str)):
         return x
     if isinstance(x, float):
+        if type(x) is not float:        # float subclasses (DECAngle) carry their own repr
+            return {'float_subclass': type(x).__name__, 'value': jsonable(float(x), depth + 1)}
         if math.isnan(x) or math.isinf(x):
             return repr(x)
         return x
